@@ -108,7 +108,8 @@ LoopStep ==
                       Y(0, IF Mode = "run" THEN "loop.run.before_stop_check" ELSE "blockon.before_stop_check")>>, Loop)
             /\ UNCHANGED <<note, hasWaker, out, niter, pollPending>>
        [] lpc = "check" ->
-            IF stop
+            \* (variant poll_before_stop: block_on looks at the stop flag only when the future is still pending)
+            IF stop /\ ~("poll_before_stop" \in Variants /\ Mode = "blockon" /\ fready)
             THEN /\ out' = -1 /\ LoopReturned(FDrop \o <<LRet(IF Mode = "run" THEN [iters |-> niter] ELSE [out |-> -1])>>)
                  /\ UNCHANGED <<stop, fready, note, hasWaker, niter, pollPending>>
             ELSE /\ lpc' = IF Mode = "run" THEN "iter" ELSE "swap"
@@ -128,13 +129,18 @@ LoopStep ==
                       /\ hasWaker' = TRUE /\ lpc' = "inpoll"
                       /\ Emit(<<[e |-> "poll", f |-> 0, woken |-> woken, on_loop |-> 1], Y(0, "user.poll")>>, Loop)
                       /\ UNCHANGED <<stop, note, out, niter>>
-            ELSE /\ lpc' = "wait_before" /\ Emit(<<Y(0, "loop.wait.before")>>, Loop)
-                 /\ UNCHANGED <<stop, fready, note, hasWaker, out, niter, pollPending>>
+            ELSE IF "poll_before_stop" \in Variants /\ stop
+                 THEN /\ out' = -1 /\ LoopReturned(FDrop \o <<LRet([out |-> -1])>>)
+                      /\ UNCHANGED <<stop, fready, note, hasWaker, niter, pollPending>>
+                 ELSE /\ lpc' = "wait_before" /\ Emit(<<Y(0, "loop.wait.before")>>, Loop)
+                      /\ UNCHANGED <<stop, fready, note, hasWaker, out, niter, pollPending>>
        [] lpc = "inpoll" ->
             \* the poll returns Pending; (variant: the flag is only cleared now, after the poll)
             /\ fready' = (IF "swap_after_poll" \in Variants THEN FALSE ELSE fready)
-            /\ lpc' = "wait_before" /\ Emit(<<Y(0, "loop.wait.before")>>, Loop)
-            /\ UNCHANGED <<stop, note, hasWaker, out, niter, pollPending>>
+            /\ IF "poll_before_stop" \in Variants /\ stop
+               THEN /\ out' = -1 /\ LoopReturned(FDrop \o <<LRet([out |-> -1])>>) /\ UNCHANGED <<stop, note, hasWaker, niter, pollPending>>
+               ELSE /\ lpc' = "wait_before" /\ Emit(<<Y(0, "loop.wait.before")>>, Loop)
+                    /\ UNCHANGED <<stop, note, hasWaker, out, niter, pollPending>>
        [] lpc = "wait_before" ->
             \* Poller::wait(None): returns at once if a notification is pending, else blocks
             IF note THEN /\ note' = FALSE /\ lpc' = "wait_after" /\ Emit(<<Y(0, "loop.wait.after")>>, Loop)
